@@ -375,7 +375,7 @@ func runShards(e entry, bin, wd, tier string, seed int64, replay string) []shard
 				"GOTRACEBACK=all",
 			)
 			if replay != "" {
-				env = append(env, "VERIF_REPLAY="+replay)
+				env = append(env, "VERIF_REPLAY="+replay, "VERIF_WATCHDOG_S=20")
 			}
 			mp := e.MaxProcs
 			if mp == 0 && n > 1 {
@@ -477,7 +477,7 @@ func runCheck(e entry, tier string, replay string) int {
 	var crashVios []violation
 	for _, r := range runs {
 		if r.died {
-			if e.CrashIsViolation && len(r.crumb) > 0 && !r.timeout {
+			if (e.CrashIsViolation || strings.Contains(r.output, "vx: watchdog")) && len(r.crumb) > 0 && !r.timeout {
 				if v, ok := confirmCrash(e, bin, wd, tier, seed, r); ok {
 					crashVios = append(crashVios, v)
 					m.Exhaustive = false
@@ -690,6 +690,9 @@ func firstPanic(out string) string {
 
 func crashSite(out string) string {
 	s := firstPanic(out)
+	if strings.Contains(s, "vx: watchdog") {
+		return "hang"
+	}
 	for _, l := range strings.Split(s, "\n") {
 		if strings.HasPrefix(l, "golang.org/x/net/") && !strings.Contains(l, "zzverif") && !strings.Contains(l, "zz_verif") {
 			if j := strings.LastIndex(l, "("); j > 0 {
